@@ -20,6 +20,7 @@ pub fn main(args: &[String]) {
   let mut preempt: usize = 2;
   let mut max_runs: usize = 5000;
   let mut all = false;
+  let mut atomics = false;
   let mut i = 0;
   while i < args.len() {
     match args[i].as_str() {
@@ -32,6 +33,7 @@ pub fn main(args: &[String]) {
         i += 1;
       }
       "--all" => all = true,
+      "--atomics" => atomics = true,
       x if path.is_none() => path = Some(x.to_string()),
       x => {
         eprintln!("chanh dfs: unexpected argument {}", x);
@@ -55,7 +57,9 @@ pub fn main(args: &[String]) {
   let stdout = std::io::stdout();
   let mut out = stdout.lock();
   for base in &cases {
-    explore(base, preempt, max_runs, all, &mut out);
+    let mut base = base.clone();
+    base.atomics |= atomics;
+    explore(&base, preempt, max_runs, all, &mut out);
   }
 }
 
